@@ -5,6 +5,8 @@
 //! small integer / dyadic coordinates.  nalgebra's `T * point` (rotation + translation), `T * vector` (rotation only),
 //! `T.inverse()` and `T * S` are the oracle for "moved by T"; every comparison of floats uses `close` (1e-9 relative).
 //! Queries are chosen without ties (never equidistant from two edges / faces with different answers).
+//! Ill-conditioned part: points far along a surface point's normal but (nearly) on the normal line, points 1e-7 .. 1e-2
+//! off mesh edges with oblique offsets, a UV-mapped mesh (uv_with_tol with Some(T) / uv_to_3d), all under translations up to 1e3.
 use super::{close, Report};
 use crate::common::points::{dist, mid_point, transform_points};
 use crate::common::DistMode;
@@ -445,8 +447,146 @@ fn meshes(r: &mut Report, isos: &[I3]) {
     }
 }
 
+
+// ------------------------------------------------------------------------------------------------ ill-conditioned measurements
+// (a) planar_distance of a point far along the normal (tens of units) and 0 / 1e-6 .. 1e-4 off the normal line
+fn planar_far_along_normal(r: &mut Report, isos3: &[I3], isos2: &[I2]) {
+    let sps3 = [(SurfacePoint3::new(p3(0.5, -1.0, 2.0), u3(0.0, 0.0, 1.0)), Vector3::new(1.0, 0.0, 0.0)),
+        (SurfacePoint3::new(p3(0.0, 0.0, 0.0), u3(1.0, 2.0, 2.0)), Vector3::new(2.0, -2.0, 1.0) / 3.0),
+        (SurfacePoint3::new(p3(-2.0, 0.75, 1.0), u3(3.0, -4.0, 0.0)), Vector3::new(0.8, 0.6, 0.0))];
+    let sps2 = [(SurfacePoint2::new(p2(0.5, -1.0), u2(0.0, 1.0)), Vector2::new(1.0, 0.0)), (SurfacePoint2::new(p2(0.0, 0.0), u2(3.0, 4.0)), Vector2::new(-0.8, 0.6)),
+        (SurfacePoint2::new(p2(-2.0, 0.75), u2(1.0, -1.0)), Vector2::new(1.0, 1.0).normalize())];
+    let along = [10.0, 40.0, -75.0];
+    let off = [0.0, 1e-6, 1e-5, 1e-4];
+    for it in isos3.iter() { let t = &it.t;
+        for (sp, w) in sps3.iter() { let m = sp.transformed(t);
+            for l in along { for e in off {
+                r.case();
+                let q = sp.point + sp.normal.into_inner() * l + w * e;
+                let (a, b) = (sp.planar_distance(&q), m.planar_distance(&(t * q)));
+                let d = || format!("SurfacePoint3 {{ point: {:?}, normal: {:?} }} query {:?} = point + {} * normal + {:?} * {:?} (a unit vector orthogonal to the normal) {}: planar_distance {:?} in the reference frame, {:?} after moving surface point and query by T", sp.point.coords.as_slice(), sp.normal.as_slice(), q.coords.as_slice(), l, e, w.as_slice(), it.name, a, b);
+                r.check(close(a, e), "SurfacePoint3::planar_distance of a point far along the normal equals its distance from the normal line (1e-9 absolute)", d);
+                r.check(close(b, a), "SurfacePoint3::planar_distance of a point far along the normal is invariant (1e-9 absolute)", d);
+                r.check(close(m.scalar_projection(&(t * q)), sp.scalar_projection(&q)), "SurfacePoint3::scalar_projection of a point far along the normal is invariant", d);
+            } }
+        }
+    }
+    for it in isos2.iter() { let t = &it.t;
+        for (sp, w) in sps2.iter() { let m = sp.transformed(t);
+            for l in along { for e in off {
+                r.case();
+                let q = sp.point + sp.normal.into_inner() * l + w * e;
+                let (a, b) = (sp.planar_distance(&q), m.planar_distance(&(t * q)));
+                let d = || format!("SurfacePoint2 {{ point: {:?}, normal: {:?} }} query {:?} = point + {} * normal + {:?} * {:?} (a unit vector orthogonal to the normal) {}: planar_distance {:?} in the reference frame, {:?} after moving surface point and query by T", sp.point.coords.as_slice(), sp.normal.as_slice(), q.coords.as_slice(), l, e, w.as_slice(), it.name, a, b);
+                r.check(close(a, e), "SurfacePoint2::planar_distance of a point far along the normal equals its distance from the normal line (1e-9 absolute)", d);
+                r.check(close(b, a), "SurfacePoint2::planar_distance of a point far along the normal is invariant (1e-9 absolute)", d);
+                r.check(close(m.scalar_projection(&(t * q)), sp.scalar_projection(&q)), "SurfacePoint2::scalar_projection of a point far along the normal is invariant", d);
+            } }
+        }
+    }
+}
+
+/// an open roof: two 4 x 2.5 rectangles meeting at the ridge y = 1.5, z = 2; UV = the unfolded roof (x, arc length across)
+fn roof(with_uv: bool) -> Mesh {
+    let v = vec![p3(0.0, 0.0, 0.0), p3(4.0, 0.0, 0.0), p3(0.0, 1.5, 2.0), p3(4.0, 1.5, 2.0), p3(0.0, 3.0, 0.0), p3(4.0, 3.0, 0.0)];
+    let f = vec![[0u32, 1, 3], [0, 3, 2], [2, 3, 5], [2, 5, 4]];
+    if with_uv {
+        let uv = crate::geom3::UvMapping::new(vec![p2(0.0, 0.0), p2(4.0, 0.0), p2(0.0, 2.5), p2(4.0, 2.5), p2(0.0, 5.0), p2(4.0, 5.0)], f.clone()).unwrap();
+        Mesh::new_with_uv(v, f, false, Some(uv))
+    } else { Mesh::new(v, f, false) }
+}
+
+// (b) signed deviations of points 1e-7 .. 1e-2 from the mesh whose closest point is on an edge / corner, offset oblique
+// to the face normal.  Below the 1e-6 epsilon of measure_point_deviation only rim edges (one face: no tie between
+// face normals); offsets are kept a factor 3 away from that epsilon.
+fn deviations_near_edges(r: &mut Report, isos: &[I3]) {
+    struct Q { base: Point3, dir: Vector3, rim: bool, name: &'static str }
+    let bx = Mesh::create_box(2.0, 3.0, 4.0, false);
+    let rf = roof(false);
+    let n1 = Vector3::new(0.0, -2.0, 1.5) / 2.5; // normal of the roof side y < 1.5 (faces [0,1,3], [0,3,2]): (1,0,0) x (0,1.5,2) = (0,-2,1.5)
+    let qb = vec![
+        Q { base: p3(2.0, 3.0, 1.5), dir: Vector3::new(1.0, 2.0, 0.0), rim: false, name: "off the box edge x=2,y=3, oblique" },
+        Q { base: p3(2.0, 3.0, 1.5), dir: Vector3::new(3.0, 1.0, 0.0), rim: false, name: "off the box edge x=2,y=3, oblique" },
+        Q { base: p3(2.0, 3.0, 4.0), dir: Vector3::new(1.0, 2.0, 3.0), rim: false, name: "off the box corner (2,3,4), oblique" },
+        Q { base: p3(0.5, 0.0, 4.0), dir: Vector3::new(0.0, -3.0, 1.0), rim: false, name: "off the box edge y=0,z=4, oblique" },
+    ];
+    let qr = vec![
+        Q { base: p3(1.25, 0.0, 0.0), dir: Vector3::new(0.0, -1.5, -2.0) / 2.5 * 3.0 + n1, rim: true, name: "off the roof rim y=0: 3 parts outward in the face plane, 1 part along the face normal" },
+        Q { base: p3(1.25, 0.0, 0.0), dir: Vector3::new(0.0, -1.5, -2.0) / 2.5 - n1 * 2.0, rim: true, name: "off the roof rim y=0: 1 part outward in the face plane, 2 parts against the face normal" },
+        Q { base: p3(0.0, 0.75, 1.0), dir: Vector3::new(-4.0, 0.0, 0.0) + n1 * 3.0, rim: true, name: "off the roof rim x=0: 4 parts outward, 3 parts along the face normal" },
+        Q { base: p3(4.0, 0.0, 0.0), dir: Vector3::new(2.0, -1.0, -1.0) + n1, rim: true, name: "off the roof rim corner (4,0,0), oblique" },
+    ];
+    let offsets = [1e-7, 3e-6, 1e-5, 1e-4, 1e-3, 1e-2];
+    for (mname, base, qs) in [("Mesh::create_box(2, 3, 4, is_solid=false)", &bx, &qb), ("open roof mesh (ridge y=1.5, z=2)", &rf, &qr)] {
+        for it in isos.iter() { let t = &it.t;
+            let mut moved = base.clone(); moved.transform(t);
+            for q in qs.iter() { for h in offsets {
+                if h < 1e-6 && !q.rim { continue; }
+                r.case();
+                let p = q.base + q.dir.normalize() * h;
+                let tp = t * p;
+                let a = base.measure_point_deviation(&p, DistMode::ToPoint); let b = moved.measure_point_deviation(&tp, DistMode::ToPoint);
+                let d = || format!("{} {} query {:?} = {:?} + {:?} * unit{:?} ({}): deviation {:?} in the reference frame, {:?} after moving mesh and query by T", mname, it.name, p.coords.as_slice(), q.base.coords.as_slice(), h, q.dir.as_slice(), q.name, a.value(), b.value());
+                r.check(close(b.value(), a.value()), "Mesh::measure_point_deviation (ToPoint) 1e-7..1e-2 off an edge / corner: the signed deviation is invariant (1e-9 absolute)", d);
+                r.check(close(dist(&moved.point_closest_to(&tp), &tp), dist(&base.point_closest_to(&p), &p)), "point-to-mesh distance 1e-7..1e-2 off an edge / corner is invariant (1e-9 absolute)", d);
+                if q.rim {
+                    let a = base.measure_point_deviation(&p, DistMode::ToPlane); let b = moved.measure_point_deviation(&tp, DistMode::ToPlane);
+                    r.check(close(b.value(), a.value()), "Mesh::measure_point_deviation (ToPlane) 1e-7..1e-2 off a rim edge: the signed deviation is invariant (1e-9 absolute)", || format!("{} ToPlane {:?} vs {:?}", d(), a.value(), b.value()));
+                }
+            } }
+        }
+    }
+}
+
+// (c) UV-mapped mesh: Mesh::uv_with_tol with the query given in another frame (Some(T)), on the moved mesh, and back
+// through Mesh::uv_to_3d
+fn uv_mapped_mesh(r: &mut Report, isos: &[I3]) {
+    let base = roof(true);
+    let n1 = Vector3::new(0.0, -2.0, 1.5) / 2.5; let n2 = Vector3::new(0.0, 2.0, 1.5) / 2.5; // (1,0,0) x (0,1.5,-2) = (0,2,1.5)
+    // (foot on the mesh, offset): feet inside faces with an offset along the face normal (both sides), and one oblique offset
+    let qs: Vec<(Point3, Vector3, &str)> = vec![
+        (p3(1.0, 0.375, 0.5), n1 * 0.05, "above face [0,1,3] side"), (p3(3.0, 0.75, 1.0), n1 * -0.125, "below the y<1.5 side"),
+        (p3(2.5, 2.25, 1.0), n2 * 0.25, "above the y>1.5 side"), (p3(0.5, 2.625, 0.5), n2 * -0.0625, "below the y>1.5 side"),
+        (p3(1.5, 0.0, 0.0), Vector3::new(0.0, -1.5, -2.0) / 2.5 * 0.03 + n1 * 0.04, "off the rim y=0, 3:4 oblique"),
+    ];
+    let params = [(1.0, 0.5), (1.0, 1.5), (0.1, 0.5)];
+    for it in isos.iter() { let t = &it.t; let ti = t.inverse();
+        let mut moved = base.clone(); moved.transform(t);
+        for (foot, off, qname) in qs.iter() {
+            let q = foot + off; let q_other = ti * q; let tq = t * q;
+            for (max_dist, max_angle) in params {
+                r.case();
+                let d = || format!("UV-mapped open roof mesh (ridge y=1.5, z=2; uv = (x, arc length across)) {} query {:?} ({}) max_dist {} max_angle {}", it.name, q.coords.as_slice(), qname, max_dist, max_angle);
+                let direct = base.uv_with_tol(&q, max_dist, max_angle, None);
+                let framed = base.uv_with_tol(&q_other, max_dist, max_angle, Some(t));
+                let on_moved = moved.uv_with_tol(&tq, max_dist, max_angle, None);
+                let dd = || format!("{}: direct {:?}, query given in another frame with Some(T) {:?}, mesh and query moved by T {:?}", d(), direct, framed, on_moved);
+                let same = |a: &Option<(Point2, f64)>, b: &Option<(Point2, f64)>| match (a, b) { (None, None) => true, (Some(x), Some(y)) => cp2(&x.0, &y.0) && close(x.1, y.1), _ => false };
+                r.check(same(&direct, &framed), "Mesh::uv_with_tol: a query given in another frame (Some(T)) gives the same uv AND the same depth as the same point given directly", dd);
+                r.check(same(&direct, &on_moved), "Mesh::uv_with_tol: moving mesh and query together changes neither uv nor depth", dd);
+                if let Some((uv, depth)) = direct {
+                    // expected values from the construction: depth = component of the offset along the face normal
+                    let n = if foot.y < 1.5 { n1 } else { n2 };
+                    r.check(close(depth, n.dot(off)), "Mesh::uv_with_tol: the depth is the signed distance of the query from the face plane", dd);
+                    let s = if foot.y < 1.5 { foot.y / 1.5 * 2.5 } else { 2.5 + (foot.y - 1.5) / 1.5 * 2.5 };
+                    r.check(cp2(&uv, &p2(foot.x, s)), "Mesh::uv_with_tol: uv is the image of the closest point in the UV map", dd);
+                    match (base.uv_to_3d(&uv), moved.uv_to_3d(&uv)) {
+                        (Some(a), Some(b)) => {
+                            // own clause names: fails on the unfixed tree for a uv strictly inside a UV triangle (UvMapping::triangle projects with solid = false)
+                            r.check(cp3(&a.point, foot) && cv3(&a.normal.into_inner(), &n), "[UvMapping::triangle, uv inside a triangle] Mesh::uv_to_3d of the uv reported for a query returns the query's closest point and the face normal", || format!("{}; uv_to_3d = ({:?}, {:?}), expected ({:?}, {:?})", dd(), a.point.coords.as_slice(), a.normal.as_slice(), foot.coords.as_slice(), n.as_slice()));
+                            r.check(cp3(&b.point, &(t * a.point)) && cv3(&b.normal.into_inner(), &(t * a.normal.into_inner())), "Mesh::uv_to_3d commutes with T (point moves, normal only rotates)", dd);
+                            if off.cross(&n).norm() < 1e-12 { r.check(cp3(&a.at_distance(depth), &q), "[UvMapping::triangle, uv inside a triangle] Mesh::uv_to_3d + depth reproduces a query that lies on the face normal through its closest point", dd); }
+                        }
+                        _ => r.check(false, "Mesh::uv_to_3d finds the uv reported by uv_with_tol", dd),
+                    }
+                }
+            }
+        }
+    }
+}
+
 pub fn run() -> Option<Report> {
-    let mut r = Report::new("isometries: 19 rotations (identity, quarter turns about x/y/z, 3 more cube-group elements, 30/45 degrees about an axis, 0.7 rad about (1,2,3), (1,1,1)->x) x 4 translations (up to (1000,-500,250)) in 3D, 8 rotations x 3 translations in 2D; entities with small integer / dyadic coordinates: 3 surface points per dimension, 4 planes, 3 segments, a 4-point cloud (with/without normals and colours), 5 Distance2 (direction None / explicit / against a->b), 7 Curve2 and 7 Curve3 point lists (open, closed, force-closed, vertices spaced 0.7..1.2 tol along axes and diagonals), a 2x3x4 box mesh (solid and not) with 7 tie-free queries; 3-4 query points per entity; all comparisons to 1e-9 relative");
+    let mut r = Report::new("isometries: 19 rotations (identity, quarter turns about x/y/z, 3 more cube-group elements, 30/45 degrees about an axis, 0.7 rad about (1,2,3), (1,1,1)->x) x 4 translations (up to (1000,-500,250)) in 3D, 8 rotations x 3 translations in 2D; entities with small integer / dyadic coordinates: 3 surface points per dimension, 4 planes, 3 segments, a 4-point cloud (with/without normals and colours), 5 Distance2 (direction None / explicit / against a->b), 7 Curve2 and 7 Curve3 point lists (open, closed, force-closed, vertices spaced 0.7..1.2 tol along axes and diagonals), a 2x3x4 box mesh (solid and not) with 7 tie-free queries; 3-4 query points per entity; all comparisons to 1e-9 relative; ILL-CONDITIONED: planar_distance / scalar_projection of points 10, 40, -75 along the normal and 0, 1e-6, 1e-5, 1e-4 off the normal line (3 surface points per dimension); signed deviations (ToPoint; ToPlane on rim edges) of points 1e-7, 3e-6, 1e-5, 1e-4, 1e-3, 1e-2 off box edges / a box corner / rim edges and a rim corner of an open roof mesh with offsets oblique to the face normal (below 1e-6 only rim edges); a UV-mapped open roof mesh with 5 queries x 3 (max_dist, max_angle): uv_with_tol with Some(T), on the moved mesh, and back through uv_to_3d; all under the same 76 isometries, 1e-9 absolute");
     let i3 = isos3(); let i2 = isos2();
     surface_points3(&mut r, &i3);
     surface_points2(&mut r, &i2);
@@ -457,5 +597,8 @@ pub fn run() -> Option<Report> {
     curves2(&mut r, &i2);
     curves3(&mut r, &i3);
     meshes(&mut r, &i3);
+    planar_far_along_normal(&mut r, &i3, &i2);
+    deviations_near_edges(&mut r, &i3);
+    uv_mapped_mesh(&mut r, &i3);
     Some(r)
 }
